@@ -1,7 +1,7 @@
 #!/bin/bash
 # rebuild coq + model + harness quickly (dev aid)
-set -e
+set -e -o pipefail
 export GOFLAGS=-mod=mod GOPROXY=off GOSUMDB=off GOTOOLCHAIN=local
-(cd /verif/coq && timeout 1200 make -j16 2>&1 | grep -v "^Closed under\|^COQC\|^COQDEP" | head -40)
+(cd /verif/coq && timeout 1200 make -j16 > /tmp/rb_make.log 2>&1 || { grep -v "^Closed under\|^COQC\|^COQDEP" /tmp/rb_make.log | head -40; exit 1; })
 (cd /verif/model && ./build.sh)
 (cd /verif/harness && go build -tags verif -o h ./cmd/h)
